@@ -45,6 +45,11 @@ CORPUS = [
     # a global range iterated in several functions and twice in a row (iteration state must not live in the shared value)
     ({"main": "let R = 0..4;\nfn a() -> int { let s = 0; for i in R { s += i; if i == 1 { break; } } s }\nfn b() -> int { let s = 0; for i in R { s += i; } s }\n"
               "fn main() { println(a(), b(), a(), b()); for i in R { for j in R { print(i * 10 + j, \"\"); } } println(\"\"); }"}, "global-range"),
+    # JSON object keys that are canonically equivalent but encoded differently (precomposed and combining forms, written
+    # as JSON escapes), duplicate keys, keys differing in case: which member survives never depends on map iteration
+    ({"main": 'fn main() { let s = "{' + ", ".join('\\"%s\\": %d' % (k, n) for n, k in enumerate(
+        ["\\\\u00e9", "e\\\\u0301", "a", "A", "\\\\u00c5", "A\\\\u030a", "\\\\u212b", "k1", "k2", "k3", "k1", "\\\\u1e69", "s\\\\u0323\\\\u0307", "s\\\\u0307\\\\u0323"])) +
+        '}"; let o = s.parse_json() as { ? }; println(o.keys().len(), o.to_json()); println(o); for k in o.keys() { println(k.len(), o.get_type(k), o.get(k)); } }'}, "json-nfc-keys"),
 ]
 
 KNOWN = {
